@@ -13,6 +13,7 @@ VARIABLES l, st, bad, dead
 Judge(s, e) ==
   CASE e.ev = "Enc" -> EncJudge(e)
     [] e.ev = "Gen" -> GenJudge(e)
+    [] e.ev = "Install" -> InstallJudge(e)
     [] e.ev = "Iv"  -> (IF FreshJudge(s.next, e.iv) # "ok" THEN FreshJudge(s.next, e.iv)
                         ELSE IF e.dec # e.pt THEN "PublishedIvIsTheOneUsed" ELSE "ok")
     [] OTHER -> "UnknownEvent"
